@@ -50,6 +50,13 @@ def trailing(rng):
 # ---------------------------------------------------------------------------------------------------------
 # TransportIDs (SPC-4 7.6.4) -> (bytes, expected dict)
 
+def ncount(rng, small, big=False):
+    """how many descriptors: mostly 0..small, now and then enough that positions get two (and, for flat lists, three) digits"""
+    if rng.random() < 0.12:
+        return rng.choice([10, 11, 12, 25, 40, 130] if big else [10, 11, 12, 25])
+    return rng.randint(0, small)
+
+
 def transport_id(rng, kind=None):
     kind = kind or rng.choice(["fcp", "sas", "iscsi0", "iscsi1", "srp", "sbp", "sop"])
     if kind == "fcp":
@@ -237,16 +244,16 @@ def cases(rng, n_each=8, trail=True):
         sn = bytes(rng.randrange(32, 127) for _ in range(rng.choice([0, 1, 8, 20])))
         add("vpd_unit_serial", "Inquiry", bytes([0, 0x80, 0, len(sn)]) + sn + trailing(rng), dict(page_code=0x80, unit_serial_number=sn), dict(evpd=1))
         # ---- device identification: 0..n designation descriptors
-        ds = [designator(rng) for _ in range(rng.randint(0, 4))]
+        ds = [designator(rng) for _ in range(ncount(rng, 4))]
         body = b"".join(x[0] for x in ds)
         add("vpd_device_identification", "Inquiry", bytes([0, 0x83]) + len(body).to_bytes(2, "big") + body + trailing(rng),
             dict(page_code=0x83, designator_descriptors=[x[1] for x in ds]), dict(evpd=1))
         # ---- GET LBA STATUS: PARAMETER DATA LENGTH (n-3) counts from byte 4; descriptors of 16 bytes from byte 8
-        ds = [flat(rng, "getlbastatus_descriptor") for _ in range(rng.randint(0, 5))]
+        ds = [flat(rng, "getlbastatus_descriptor") for _ in range(ncount(rng, 5, big=True))]
         body = b"".join(bytes(x[0]) for x in ds)
         add("getlbastatus", "GetLBAStatus", (4 + len(body)).to_bytes(4, "big") + bytes(4) + body + trailing(rng), dict(lbas=[x[1] for x in ds]))
         # ---- REPORT LUNS: LUN LIST LENGTH counts the list only (8 per LUN); the list starts at byte 8
-        luns = [rand_value(rng, 64) for _ in range(rng.randint(0, 5))]
+        luns = [rand_value(rng, 64) for _ in range(ncount(rng, 5, big=True))]
         body = b"".join(x.to_bytes(8, "big") for x in luns)
         add("reportluns", "ReportLuns", len(body).to_bytes(4, "big") + bytes(4) + body + trailing(rng), dict(luns=luns))
         # ---- the same three lists cut off by the allocation length at a descriptor boundary: the length field still counts the
@@ -266,7 +273,7 @@ def cases(rng, n_each=8, trail=True):
                 b"".join(k.to_bytes(8, "big") for k in keys2), dict(pr_generation=gen2, reservation_keys=keys2), note="truncated by the allocation length")
         # ---- PR IN
         gen = rand_value(rng, 32)
-        keys = [rand_value(rng, 64) for _ in range(rng.randint(0, 5))]
+        keys = [rand_value(rng, 64) for _ in range(ncount(rng, 5, big=True))]
         add("prin_read_keys", "PersistentReserveInReadKeys", gen.to_bytes(4, "big") + (8 * len(keys)).to_bytes(4, "big") +
             b"".join(k.to_bytes(8, "big") for k in keys) + trailing(rng), dict(pr_generation=gen, reservation_keys=keys))
         if rng.random() < 0.3:
@@ -284,7 +291,7 @@ def cases(rng, n_each=8, trail=True):
         v["pr_type_mask"] = tm
         add("prin_report_capabilities", "PersistentReserveInReportCapabilities", bytes(b) + trailing(rng), v)
         ds = []
-        for _ in range(rng.randint(0, 4)):
+        for _ in range(ncount(rng, 4)):
             tid, texp = transport_id(rng)
             b, v = flat(rng, "prin_full_status_descriptor", fixed=dict(additional_desc_length=len(tid)))
             v = dict(v)
@@ -297,7 +304,7 @@ def cases(rng, n_each=8, trail=True):
         # ---- REPORT TARGET PORT GROUPS: RETURN DATA LENGTH (n-3); optional extended header; groups with their ports
         ext = rng.random() < 0.5
         groups, body = [], b""
-        for _ in range(rng.randint(0, 4)):
+        for _ in range(ncount(rng, 4)):
             ports = [rand_value(rng, 16) for _ in range(rng.randint(0, 3))]
             b, v = flat(rng, "rtpg_descriptor", fixed=dict(target_port_count=len(ports)))
             v = dict(v)
@@ -312,7 +319,7 @@ def cases(rng, n_each=8, trail=True):
         add("rtpg", "ReportTargetPortGroups", len(body).to_bytes(4, "big") + body + trailing(rng), exp)
         # ---- REPORT PRIORITY: PRIORITY PARAMETER DATA LENGTH (n-3); descriptors: 8 bytes + TransportID (ADDITIONAL LENGTH n-7)
         ds = []
-        for _ in range(rng.randint(0, 3)):
+        for _ in range(ncount(rng, 3)):
             tid, texp = transport_id(rng)
             b, v = flat(rng, "report_priority_descriptor", fixed=dict(adlen=len(tid)))
             ds.append((bytes(b) + tid, dict(current_priority=v["current_priority"], rtpi=v["rtpi"])))
@@ -320,12 +327,12 @@ def cases(rng, n_each=8, trail=True):
         add("report_priority", "ReportPriority", len(body).to_bytes(4, "big") + body + trailing(rng), dict(priority_descriptors=[x[1] for x in ds]))
         # ---- READ ELEMENT STATUS
         pages, pbody = [], b""
-        for _ in range(rng.randint(0, 3)):
+        for _ in range(ncount(rng, 3)):
             et = rng.choice([1, 2, 3, 4])
             pv, av = rng.randrange(2), rng.randrange(2)
             edl = 12 + 36 * pv + 36 * av + (rng.choice([0, 4]) if trail else 4)     # canonical: the four bytes after the tags present (zero)
             descs, dbody = [], b""
-            for _ in range(rng.randint(0, 3)):
+            for _ in range(ncount(rng, 3)):
                 b, v = flat(rng, "res_descriptor")
                 b = bytearray(b) + bytearray(edl - 12)
                 v = dict(v)
